@@ -120,7 +120,7 @@ func (c *ExpressionCalculator) ResultTokens() []*parsers.ExpressionToken {
 //		- variables: The list of variables to be populated.
 func (c *ExpressionCalculator) CreateVariables(vars variables.IVariableCollection) {
 	for _, variableName := range c.parser.VariableNames() {
-		if vars.FindByName(variableName) == nil {
+		if variableName != "" && vars.FindByName(variableName) == nil {
 			vars.Add(variables.EmptyVariable(variableName))
 		}
 	}
